@@ -68,6 +68,7 @@ type Node struct {
 	ConfWaits    map[string][]*ConfWait
 	CsvWaits     map[string][]*CsvWait
 	HeightCalls  []HeightCall
+	Tickers      []*TickSender
 	Epochs       int
 
 	// WalletFactory lets a test plug real on-chain adapters in instead of the token wallet.
@@ -182,7 +183,7 @@ func (n *Node) Boot() error {
 	mgr = n.Mgr
 	if n.UseRealManager {
 		n.RealMgr = messages.NewManager()
-		mgr = n.RealMgr
+		mgr = &tickManager{p: p, inner: n.RealMgr}
 	}
 	services := swap.NewSwapServices(&RecStore{p: p, inner: store}, rss, &NodeLN{p: p}, &Messenger{p: p}, mgr, pol,
 		n.BtcEnabled, bw, bv, bt, n.LbtcEnabled, lw, lv, lt, ps)
